@@ -464,14 +464,20 @@ func encodeValue(packet net.Buffers, seqNo uint64) net.Buffers {
 	return append(packet, buf[:])
 }
 
+// Values from a Persistence may fail the integrity check.
+var (
+	errValueTruncated = errors.New("mqtt: persisted value truncated")
+	errValueCorrupt   = errors.New("mqtt: persisted value corrupt")
+)
+
 func decodeValue(buf []byte) (packet []byte, seqNo uint64, _ error) {
 	if len(buf) < 12 {
-		return nil, 0, errors.New("mqtt: persisted value truncated")
+		return nil, 0, errValueTruncated
 	}
 	digest := fnv.New32a()
 	digest.Write(buf[:len(buf)-4])
 	if digest.Sum32() != binary.BigEndian.Uint32(buf[len(buf)-4:]) {
-		return nil, 0, errors.New("mqtt: persisted value corrupt")
+		return nil, 0, errValueCorrupt
 	}
 	return buf[:len(buf)-12], binary.LittleEndian.Uint64(buf[len(buf)-12:]), nil
 }
